@@ -47,6 +47,19 @@ class BaseElementLocator
 
     BaseElementLocator() = default;
 
+    BaseElementLocator(BaseElementLocator&& other) noexcept
+        : element_addresses_(std::move(other.element_addresses_)),
+          last_element_(std::exchange(other.last_element_, nullptr))
+    {
+    }
+
+    BaseElementLocator& operator=(BaseElementLocator&& other) noexcept
+    {
+        element_addresses_ = std::move(other.element_addresses_);
+        last_element_ = std::exchange(other.last_element_, nullptr);
+        return *this;
+    }
+
     template <class Allocator>
     explicit BaseElementLocator(const BaseElementLocator& locator, std::byte* old_memory_begin,
                                 std::size_t old_max_element_count, std::byte* new_memory_begin,
@@ -209,6 +222,25 @@ class BaseAllFixedSizeElementLocator
     }
 
   public:
+    BaseAllFixedSizeElementLocator(const BaseAllFixedSizeElementLocator&) = default;
+
+    constexpr BaseAllFixedSizeElementLocator(BaseAllFixedSizeElementLocator&& other) noexcept
+        : element_count_(other.element_count_), stride_(other.stride_)
+    {
+        other.element_count_ = {};
+    }
+
+    BaseAllFixedSizeElementLocator& operator=(const BaseAllFixedSizeElementLocator&) = default;
+
+    constexpr BaseAllFixedSizeElementLocator& operator=(BaseAllFixedSizeElementLocator&& other) noexcept
+    {
+        const auto element_count = other.element_count_;
+        other.element_count_ = {};
+        element_count_ = element_count;
+        stride_ = other.stride_;
+        return *this;
+    }
+
     constexpr bool empty(const std::byte*) const noexcept { return element_count_ == std::size_t{}; }
 
     static constexpr std::size_t memory_size() noexcept { return {}; }
